@@ -217,7 +217,9 @@ def _tuple(it, fr, a, k):
 def _set(it, fr, a, k):
     s = PySet()
     if a:
-        for x in it.to_list(a[0]):
+        # set iteration order is arbitrary in Python; the engine picks the reverse of the source order so that code
+        # which relies on set(iterable) preserving order is exposed
+        for x in reversed(it.to_list(a[0])):
             ops.set_add(s, x)
     return s
 
